@@ -169,7 +169,7 @@ func sensitivity(names []string) int {
 		} else {
 			patch = filepath.Join(mdir, name)
 		}
-		prop, expect := patchMeta(patch, name)
+		prop, expect, base := patchMeta(patch, name)
 		p, ok := props[prop]
 		if !ok {
 			fmt.Printf("sensitivity %-40s property=%s: no check registered, skipped\n", name, prop)
@@ -177,7 +177,19 @@ func sensitivity(names []string) int {
 		}
 		rdir := filepath.Join(scratch, "repo")
 		os.RemoveAll(rdir)
-		if out, err := run("", nil, "rsync", "-a", "--exclude", ".git", repoDir()+"/", rdir+"/"); err != nil {
+		if base != "" {
+			// A patch written against an earlier commit of /repo whose code a later fix: commit
+			// replaced: it is applied to the tree it was written for.  That tree still contains
+			// the defect the later fix removed (C19: WaitGroup reuse after a timed Wait), which
+			// would drown the change under test, so the WaitGroup model runs in its atomic mode
+			// for this entry (DESIGN.md 14.2).
+			os.MkdirAll(rdir, 0o755)
+			if out, err := run("", nil, "bash", "-c", "git -C '"+repoDir()+"' archive "+base+" | tar -x -C '"+rdir+"'"); err != nil {
+				fmt.Fprintf(os.Stderr, "sensitivity: base %s: %v %s\n", base, err, out)
+				return 2
+			}
+			os.Setenv("VERIF_WG_ATOMIC", "1")
+		} else if out, err := run("", nil, "rsync", "-a", "--exclude", ".git", repoDir()+"/", rdir+"/"); err != nil {
 			fmt.Fprintf(os.Stderr, "sensitivity: %v %s\n", err, out)
 			return 2
 		}
@@ -201,6 +213,7 @@ func sensitivity(names []string) int {
 		}()
 		replayDir = filepath.Join(scratch, "replays")
 		code := checkCmd(p, "quick", rdir, false)
+		os.Unsetenv("VERIF_WG_ATOMIC")
 		wp.Close()
 		os.Stdout = savedOut
 		text := <-done
@@ -243,7 +256,7 @@ func sensitivity(names []string) int {
 
 // patchMeta reads "# property: Cxx" / "# expect: equivalent" header lines of a mutant patch,
 // or meta.json of a seeded change.
-func patchMeta(patch, name string) (prop, expect string) {
+func patchMeta(patch, name string) (prop, expect, base string) {
 	if strings.HasPrefix(name, "seeded/") {
 		b, err := os.ReadFile(filepath.Join(filepath.Dir(patch), "meta.json"))
 		if err == nil {
@@ -254,12 +267,18 @@ func patchMeta(patch, name string) (prop, expect string) {
 					prop = rest[j+1 : j+4]
 				}
 			}
+			var m struct {
+				Base string `json:"base"`
+			}
+			if json.Unmarshal(b, &m) == nil {
+				base = m.Base
+			}
 		}
-		return prop, ""
+		return prop, "", base
 	}
 	f, err := os.Open(patch)
 	if err != nil {
-		return "", ""
+		return "", "", ""
 	}
 	defer f.Close()
 	sc := bufio.NewScanner(f)
@@ -271,11 +290,14 @@ func patchMeta(patch, name string) (prop, expect string) {
 		if strings.HasPrefix(l, "# expect:") {
 			expect = strings.TrimSpace(strings.TrimPrefix(l, "# expect:"))
 		}
+		if strings.HasPrefix(l, "# base:") {
+			base = strings.Fields(strings.TrimSpace(strings.TrimPrefix(l, "# base:")))[0]
+		}
 		if strings.HasPrefix(l, "--- ") {
 			break
 		}
 	}
-	return prop, expect
+	return prop, expect, base
 }
 
 // witnesses replays every known-finding witness twice: on the current tree (the defect is
